@@ -258,5 +258,6 @@ def cases(tier):
                                    "bound": "equal to the count" if rel == "eq" else "adjacent to the count on the pruning side"},
                            assumptions=["np.bincount is stubbed to return the symbolic counts (c, n-c); numpy NEP-50 promotion model (python float is weak)",
                                         "non-adjacent counts follow from the monotonicity of correctly rounded division (not re-proved)"],
-                           stubs=["np.bincount -> symbolic counts"], functions=FUNCS[1:2] + FUNCS[3:], shards=16, shard_depth=1))
+                           stubs=["np.bincount -> symbolic counts"], functions=FUNCS[1:2] + FUNCS[3:], shards=16, shard_depth=1,
+                           query_timeout_ms=240000))       # QF_FP queries: 1-10 s each when idle, far more on a loaded machine
     return cs
